@@ -273,7 +273,9 @@ def run_case(case):
                 if p is not None:
                     tid = 7000 + len(tids)
                     tl = p.thread_list()
-                    p.threads = tl + [simk.Thread(tid, b"thr")]
+                    # every other thread is named like a number (its own id):
+                    # "Name:\t7001" must not be taken for the Tgid line
+                    p.threads = tl + [simk.Thread(tid, b"thr" if tid % 2 == 0 else str(tid).encode())]
                     tids[tid] = pid
                     labels.add("thread")
             elif kind == "hide_status":
